@@ -73,6 +73,10 @@ func verifyUnit1(l *Loader, pkgPath, key string, fixed map[string]Val, suffix st
 	ex := NewExec(l, res.Name)
 	res.Exec = ex
 	ex.UseBodyOf = c.UseBody
+	ex.Partial = map[string]bool{}
+	for _, k := range c.Partial {
+		ex.Partial[k] = true
+	}
 	abstractRem = c.AbstractRem
 	defer func() { abstractRem = false }()
 	ex.Hidden = map[string]bool{}
